@@ -173,21 +173,36 @@ def make_sim(cfg):
 
 
 def gen_product_cfg(rng, kind):
+    """ an intervention-with-products configuration that RUNS on this tree (the C20 generator also produces the schedules
+        that crash upstream — campaign screening, interventions on their own timestep, off-grid years: C20 findings, not
+        C01 business) """
+    last = None
+    for _ in range(12):
+        cfg = _gen_product_cfg(rng, kind); last = cfg
+        try:
+            make_sim(cfg).run(); return cfg
+        except Exception:
+            continue
+    return last
+
+
+def _gen_product_cfg(rng, kind):
     from harness.props import c20_impl
     for _ in range(20):
         case = c20_impl.gen_case(rng, kind=kind)
-        if case.get('delivery') != 'campaign': break      # campaign_screening / campaign_triage crash upstream (no coverage_dist)
+        if case.get('delivery') != 'campaign' and case.get('own_dt', 1) == 1: break
     if case.get('vaccine', {}).get('kind') == 'aon': case['vaccine']['kind'] = 'leaky'
     if kind == 'pipeline':
         # imperfect test feeding a capacity-limited treatment: people in BOTH disease states are tested and treated on the
         # same step, so the order in which a product walks its string-keyed state table decides who gets which stream
         for _ in range(50):
             case = c20_impl.gen_case(rng, kind='treat')
-            if case.get('pipeline'): break
-        case['pipeline']['dx']['rows'] = [('susceptible', [0.25, 0.75]), ('infected', [0.8, 0.2])]
+            if case.get('pipeline') and case.get('own_dt', 1) == 1: break
+        dis = case['sim']['disease']
+        case['pipeline']['dx']['rows'] = [(dis, 'susceptible', [0.25, 0.75]), (dis, 'infected', [0.8, 0.2])]
         case['pipeline']['sched'] = dict(start_year=2000 + 1, end_year=2000 + 4, prob=[0.9], annual_prob=False)
         states = ['susceptible', 'infected'] + (['recovered'] if case['sim']['disease'] == 'sir' else [])
-        case['tx']['rows'] = [(st, 0.6, 'susceptible') for st in states]
+        case['tx']['rows'] = [(dis, st, 0.6, 'susceptible') for st in states]
         case['elig'] = 'screen_pos_alive'; case['treat_prob'] = 1.0; case['capacity'] = None
         return dict(c20case=case)
     if kind == 'treat' and not case.get('pipeline'):
@@ -202,7 +217,11 @@ def gen_cfg(rng, k=0, products=None):
     if products or (products is None and k % 3 == 2):
         from harness.props import c20_impl
         return gen_product_cfg(rng, rng.choice(['treat', 'treat', 'screen', 'vx']))   # (all-or-nothing vaccines read np.random: recorded finding, avoided)
-    cfg = impl.gen_sim_config(rng, small=True, allow_global_readers=(k % 3 == 0))
+    nets = None
+    if rng.random() < 0.25:
+        nets = ['agepools'] + rng.sample(['random', 'mf', 'static'], rng.choice([0, 1]))     # age-bracket mixing pools (routes that are not networks)
+    cfg = impl.gen_sim_config(rng, small=True, allow_global_readers=(k % 3 == 0), networks=nets,
+                              demographics=(rng.choice([[], ['deaths']]) if nets else None))   # (Pregnancy + MixingPools crashes upstream: no `postnatal` on a Route)
     if any(n['type'] in ('erdosrenyi', 'disk') for n in cfg['networks']) and cfg['demographics'] and False:
         cfg['demographics'] = []
     return cfg
@@ -256,6 +275,30 @@ def run_history(cfg, hist, rng, shield=False):
         st = keep(); other = make_sim(hist['other']); other.run()
         np.random.random(3); back(st)
         sim = make_sim(cfg); sim.run(); return snap.everything(sim)
+    if kind in ('interleaved-steps', 'twin-alternate'):
+        # two live simulations advanced in turns (a step of one, a step of the other): what a notebook, a calibration
+        # loop or a comparison of scenarios does.  `other` is a sibling: the same module classes, another seed/size.
+        import sciris as sc
+        sim = make_sim(cfg)
+        st = keep(); other = sc.dcp(sim) if kind == 'twin-alternate' else make_sim(hist['other']); back(st)
+        done = lambda x: x.loop.index >= len(x.loop.plan)
+        fine = hist.get('k', 0) % 3 == 0           # in turns per scheduled function (k of them) instead of per timestep
+        chunk = 1 + hist.get('n', 1) % 4
+        for _ in range(100000):
+            if done(sim): break
+            if not done(other):
+                st = keep()
+                if fine:
+                    for _ in range(chunk):
+                        if not done(other): other.loop.run_one_step()
+                else: other.run_one_step()
+                back(st)
+            if fine:
+                for _ in range(chunk):
+                    if not done(sim): sim.loop.run_one_step()
+            else: sim.run_one_step()
+        sim.run()
+        return snap.everything(sim)
     if kind == 'twin-copy':
         import sciris as sc
         sim = make_sim(cfg)
@@ -302,11 +345,21 @@ def digest(s):
 
 
 def gen_history(rng, cfg):
-    kind = rng.choice(['perturb-before-run', 'perturb-at-boundary', 'perturb-at-boundary', 'other-sim-between', 'other-sim-before', 'twin-copy'])
+    kind = rng.choice(['perturb-before-run', 'perturb-at-boundary', 'perturb-at-boundary', 'other-sim-between', 'other-sim-before', 'twin-copy',
+                       'interleaved-steps', 'interleaved-steps', 'twin-alternate'])
     h = dict(kind=kind, n=rng.randint(1, 9), k=rng.randint(1, 200))
     if 'other' in kind:
         # the other simulation may use the same module classes (class-level state is shared within a process)
         h['other'] = gen_cfg(rng, products=True) if 'c20case' in cfg else impl.gen_sim_config(rng, small=True, allow_global_readers=True)
+    if kind == 'interleaved-steps':
+        # a sibling: same classes, same options (so that anything cached per option value is shared), another seed and size
+        import copy
+        o = copy.deepcopy(cfg)
+        if 'c20case' in o:
+            o['c20case']['sim']['rand_seed'] = o['c20case']['sim'].get('rand_seed', 0) + 17
+        else:
+            o['rand_seed'] = cfg['rand_seed'] + 17; o['n_agents'] = cfg['n_agents'] + rng.choice([0, 40])
+        h['other'] = o
     return h
 
 
@@ -361,10 +414,14 @@ def search(ctx):
             # always exercise: a capacity-limited treatment sim, with another treatment sim run before / in between
             cfg = gen_product_cfg(ctx.rng, 'treat')
             hist = dict(kind=['other-sim-before', 'other-sim-between'][k - 1], n=3, k=1, other=gen_product_cfg(ctx.rng, 'treat'))
+        if k == 3:
+            # always exercise: two live sims with age-bracket mixing pools advanced in turns
+            cfg = impl.gen_sim_config(ctx.rng, small=True, allow_global_readers=False, networks=['agepools'], demographics=[])
+            hist = dict(kind='interleaved-steps', n=ctx.rng.randint(1, 9), k=ctx.rng.choice([1, 2, 3]), other=dict(cfg, rand_seed=cfg['rand_seed'] + 17, n_agents=cfg['n_agents'] + 40))
         try:
             msg = oracle_diff(cfg, hist)
         except Exception as e:
-            ctx.count('oracle_exceptions'); continue
+            ctx.count('oracle_exceptions'); ctx.notes['last_oracle_exception'] = f'{type(e).__name__}: {e}'; continue
         ctx.count('differential_runs'); ctx.count('history:' + hist['kind'])
         if msg:
             for f in attribute(cfg, msg, channel=hist['kind'], hist=hist):
